@@ -364,8 +364,9 @@ func runRaceScript(limit time.Duration, binLimit time.Duration, pkg string, args
 	cmd := exec.CommandContext(ctx, "/bin/bash", append([]string{raceScript, pkg}, args...)...)
 	cmd.Env = append(os.Environ(), fmt.Sprintf("RACEPASS_TIMEOUT=%d", int(binLimit.Seconds())))
 	cmd.SysProcAttr = &syscall.SysProcAttr{Setpgid: true}
-	cmd.Cancel = func() error { return syscall.Kill(-cmd.Process.Pid, syscall.SIGKILL) }
-	cmd.WaitDelay = 2 * time.Second
+	// TERM first (the script removes its scratch directory on the way out); Go kills the shell after WaitDelay
+	cmd.Cancel = func() error { return syscall.Kill(-cmd.Process.Pid, syscall.SIGTERM) }
+	cmd.WaitDelay = 5 * time.Second
 	var buf bytes.Buffer
 	cmd.Stdout, cmd.Stderr = &buf, &buf
 	err := cmd.Run()
